@@ -6,6 +6,7 @@
 From SF Require Import Base.Prelude Gen.Generated Unsized.Types Unsized.Parse Unsized.Machine Unsized.Ops.
 From SF Require Import Unsized.Proofs.EncodeParse Unsized.Proofs.Mem Unsized.Proofs.Notify Unsized.Proofs.Flat Unsized.Proofs.Layout
   Unsized.Proofs.Table Unsized.Proofs.Path Unsized.Proofs.Context Unsized.Proofs.Focus Unsized.Proofs.Pos.
+From SF Require Import Unsized.Proofs.EnumFacts.
 
 Arguments Z.add : simpl never.
 Arguments Z.sub : simpl never.
@@ -70,6 +71,12 @@ Proof.
   rewrite (zlen_uhdr_usizes _ _ _ F), zsum_firstn_usizes. unfold elem_addr. lia.
 Qed.
 
+Lemma addr_of_SV rw vars d p vt r b : find_variant d vars = Some vt ->
+  addr_of (TEnum rw vars) (VEnum d p) (SV :: r) b = addr_of vt p r (b + Z.of_nat rw).
+Proof.
+  intros Hf. unfold addr_of. rewrite (hctx_SV _ _ _ _ _ _ Hf). cbn [fst]. rewrite zlen_app, zlen_le_bytes. lia.
+Qed.
+
 (* ---------------------------------------------------------------------------------------------- *)
 (* struct fields around field i                                                                    *)
 Lemma Lay_fields_length ts : forall vs ps b, Lay_fields ts vs ps b -> length ts = length vs /\ length ts = length ps.
@@ -118,7 +125,7 @@ Qed.
 Lemma LayP_get_at (E : ty -> val -> Z -> ptr -> Prop) pi : forall t v b p X xv, wf t v = true -> resolve t v pi = Some (X, xv) -> LayP E pi t v b p ->
   exists node, get_at t p (mpath pi) = Some (X, node) /\ E X xv (addr_of t v pi b) node.
 Proof.
-  induction pi as [|[i|i] r IH]; intros t v b p X xv Hwf Hr HL.
+  induction pi as [|[i|i|] r IH]; intros t v b p X xv Hwf Hr HL.
   - cbn [resolve] in Hr. injection Hr as <- <-. exists p. rewrite addr_of_nil. split; [reflexivity|exact HL].
   - apply resolve_SF_inv in Hr as (ts & vs & ti & vi & -> & -> & Hti & Hvi & Hr).
     destruct p as [| | | |ps|]; try (cbn [LayP] in HL; contradiction).
@@ -137,12 +144,20 @@ Proof.
     destruct (IH _ _ _ _ _ _ (wf_nth _ _ _ _ (uf_wfs _ _ _ F) Hkv) Hr HLi) as (node & Hg & He).
     exists node. rewrite (addr_of_SE _ _ _ _ _ _ _ Hwf Hkv). split; [|exact He].
     cbn [mpath map mstep_of get_at]. exact Hg.
+  - apply resolve_SV_inv in Hr as (rw & vars & d0 & pv & vt & -> & -> & Hf & Hr).
+    destruct p as [| | | | |st d' q]; try (cbn [LayP] in HL; contradiction).
+    cbn [LayP] in HL. destruct HL as (-> & -> & vt' & Hf' & HLi).
+    rewrite Hf in Hf'. injection Hf' as <-.
+    destruct (wf_enum_inv _ _ _ _ Hwf) as (_ & vt' & Hf' & Hwi). rewrite Hf in Hf'. injection Hf' as <-.
+    destruct (IH _ _ _ _ _ _ Hwi Hr HLi) as (node & Hg & He).
+    exists node. rewrite (addr_of_SV _ _ _ _ _ _ _ Hf). split; [|exact He].
+    cbn [mpath map mstep_of]. rewrite (get_at_PV _ _ _ _ _ _ _ Hf). exact Hg.
 Qed.
 
 Lemma LayP_set_at (E E' : ty -> val -> Z -> ptr -> Prop) pi : forall t v b p X xv node', wf t v = true -> resolve t v pi = Some (X, xv) -> LayP E pi t v b p ->
   E' X xv (addr_of t v pi b) node' -> LayP E' pi t v b (set_at t p (mpath pi) node').
 Proof.
-  induction pi as [|[i|i] r IH]; intros t v b p X xv node' Hwf Hr HL HE.
+  induction pi as [|[i|i|] r IH]; intros t v b p X xv node' Hwf Hr HL HE.
   - cbn [resolve] in Hr. injection Hr as <- <-. rewrite addr_of_nil in HE. exact HE.
   - apply resolve_SF_inv in Hr as (ts & vs & ti & vi & -> & -> & Hti & Hvi & Hr).
     destruct p as [| | | |ps|]; try (cbn [LayP] in HL; contradiction).
@@ -164,12 +179,21 @@ Proof.
     cbn [mpath map mstep_of set_at LayP]. repeat (split; [reflexivity|]).
     exists kv, (set_at it q (map mstep_of r) node'). repeat split; auto.
     exact (IH _ _ _ _ _ _ _ (wf_nth _ _ _ _ (uf_wfs _ _ _ F) Hkv) Hr HLi HE).
+  - apply resolve_SV_inv in Hr as (rw & vars & d0 & pv & vt & -> & -> & Hf & Hr).
+    destruct p as [| | | | |st d' q]; try (cbn [LayP] in HL; contradiction).
+    cbn [LayP] in HL. destruct HL as (-> & -> & vt' & Hf' & HLi).
+    rewrite Hf in Hf'. injection Hf' as <-.
+    destruct (wf_enum_inv _ _ _ _ Hwf) as (_ & vt' & Hf' & Hwi). rewrite Hf in Hf'. injection Hf' as <-.
+    rewrite (addr_of_SV _ _ _ _ _ _ _ Hf) in HE.
+    cbn [mpath map mstep_of]. rewrite (set_at_PV _ _ _ _ _ _ _ _ Hf). cbn [LayP].
+    split; [reflexivity|]. split; [reflexivity|]. exists vt. split; [exact Hf|].
+    exact (IH _ _ _ _ _ _ _ Hwi Hr HLi HE).
 Qed.
 
 Lemma LayP_mono (E E' : ty -> val -> Z -> ptr -> Prop) pi : (forall tX vX a n, E tX vX a n -> E' tX vX a n) ->
   forall t v b p, LayP E pi t v b p -> LayP E' pi t v b p.
 Proof.
-  intros HE. induction pi as [|[i|i] r IH]; intros t v b p HL.
+  intros HE. induction pi as [|[i|i|] r IH]; intros t v b p HL.
   - exact (HE _ _ _ _ HL).
   - destruct t as [| | | |ts|]; try (cbn [LayP] in HL; contradiction).
     destruct v as [| | |vs|]; try (cbn [LayP] in HL; contradiction).
@@ -181,6 +205,11 @@ Proof.
     destruct p as [| | |a n inner pmb rs re| |]; try (cbn [LayP] in HL; contradiction).
     cbn [LayP] in *. destruct HL as (Ha & Hn & Hrs & Hre & kv & q & Hkv & Hi & HLi).
     repeat (split; [assumption|]). exists kv, q. repeat split; auto.
+  - destruct t as [| | | | |rw vars]; try (cbn [LayP] in HL; contradiction).
+    destruct v as [| | | |d0 pv]; try (cbn [LayP] in HL; contradiction).
+    destruct p as [| | | | |st d' q]; try (cbn [LayP] in HL; contradiction).
+    cbn [LayP] in *. destruct HL as (Hst & Hd & vt & Hf & HLi).
+    repeat (split; [assumption|]). exists vt. split; auto.
 Qed.
 
 (* the same at the node the path resolves to only *)
@@ -189,7 +218,7 @@ Lemma LayP_mono_at (E E' : ty -> val -> Z -> ptr -> Prop) pi : forall t v b p X 
   (forall n, E X xv (addr_of t v pi b) n -> E' X xv (addr_of t v pi b) n) ->
   LayP E pi t v b p -> LayP E' pi t v b p.
 Proof.
-  induction pi as [|[i|i] r IH]; intros t v b p X xv Hwf Hr HE HL.
+  induction pi as [|[i|i|] r IH]; intros t v b p X xv Hwf Hr HE HL.
   - cbn [resolve] in Hr. injection Hr as <- <-. rewrite addr_of_nil in HE. exact (HE _ HL).
   - apply resolve_SF_inv in Hr as (ts & vs & ti & vi & -> & -> & Hti & Hvi & Hr).
     destruct p as [| | | |ps|]; try (cbn [LayP] in HL; contradiction).
@@ -207,12 +236,20 @@ Proof.
     rewrite (addr_of_SE _ _ _ _ _ _ _ Hwf Hkv) in HE.
     repeat (split; [reflexivity|]). exists kv, q. repeat split; auto.
     exact (IH _ _ _ _ _ _ (wf_nth _ _ _ _ (uf_wfs _ _ _ F) Hkv) Hr HE HLi).
+  - apply resolve_SV_inv in Hr as (rw & vars & d0 & pv & vt & -> & -> & Hf & Hr).
+    destruct p as [| | | | |st d' q]; try (cbn [LayP] in HL; contradiction).
+    cbn [LayP] in *. destruct HL as (-> & -> & vt' & Hf' & HLi).
+    rewrite Hf in Hf'. injection Hf' as <-.
+    destruct (wf_enum_inv _ _ _ _ Hwf) as (_ & vt' & Hf' & Hwi). rewrite Hf in Hf'. injection Hf' as <-.
+    rewrite (addr_of_SV _ _ _ _ _ _ _ Hf) in HE.
+    repeat (split; [reflexivity|]). exists vt. split; [exact Hf|].
+    exact (IH _ _ _ _ _ _ Hwi Hr HE HLi).
 Qed.
 
 (* a focus along pi ++ s is a focus along pi whose end node is focused along s *)
 Lemma LayP_app (E : ty -> val -> Z -> ptr -> Prop) pi s : forall t v b p, LayP E (pi ++ s) t v b p <-> LayP (LayP E s) pi t v b p.
 Proof.
-  induction pi as [|[i|i] r IH]; intros t v b p.
+  induction pi as [|[i|i|] r IH]; intros t v b p.
   - reflexivity.
   - destruct t as [| | | |ts|]; try (cbn [app LayP]; tauto).
     destruct v as [| | |vs|]; try (cbn [app LayP]; tauto).
@@ -224,13 +261,18 @@ Proof.
     destruct p as [| | |a n inner pmb rs re| |]; try (cbn [app LayP]; tauto).
     cbn [app LayP]. split; intros (Ha & Hn & Hrs & Hre & kv & q & Hkv & Hi & HLi);
       repeat (split; [assumption|]); exists kv, q; repeat split; auto; apply IH; exact HLi.
+  - destruct t as [| | | | |rw vars]; try (cbn [app LayP]; tauto).
+    destruct v as [| | | |d0 pv]; try (cbn [app LayP]; tauto).
+    destruct p as [| | | | |st d' q]; try (cbn [app LayP]; tauto).
+    cbn [app LayP]. split; intros (Hst & Hd & vt & Hf & HLi);
+      repeat (split; [assumption|]); exists vt; (split; [exact Hf|]); apply IH; exact HLi.
 Qed.
 
 (* ---------------------------------------------------------------------------------------------- *)
 (* 3. a focused layout whose end node is a layout is a layout                                      *)
 Lemma LayP_Lay pi : forall t v b p, plain t = true -> wf t v = true -> LayP Lay pi t v b p -> Lay t v b p.
 Proof.
-  induction pi as [|[i|i] r IH]; intros t v b p Hpl Hwf HL.
+  induction pi as [|[i|i|] r IH]; intros t v b p Hpl Hwf HL.
   - exact HL.
   - destruct t as [| | | |ts|]; try (cbn [LayP] in HL; contradiction).
     destruct v as [| | |vs|]; try (cbn [LayP] in HL; contradiction).
@@ -253,6 +295,13 @@ Proof.
     + exists i, kv. split; assumption.
     + destruct (elem_inside it k items b i kv F Hkv) as [He1 _]. pose proof (uf_n _ _ _ F).
       apply (Lay_after it (snd kv) (elem_addr it k items b i) q b Hpl Hwi HLq). nia.
+  - destruct t as [| | | | |rw vars]; try (cbn [LayP] in HL; contradiction).
+    destruct v as [| | | |d0 pv]; try (cbn [LayP] in HL; contradiction).
+    destruct p as [| | | | |st d' q]; try (cbn [LayP] in HL; contradiction).
+    cbn [LayP] in HL. destruct HL as (-> & -> & vt & Hf & HLi).
+    destruct (wf_enum_inv _ _ _ _ Hwf) as (_ & vt' & Hf' & Hwi). rewrite Hf in Hf'. injection Hf' as <-.
+    apply Lay_enum. split; [reflexivity|]. split; [reflexivity|]. exists vt. split; [exact Hf|].
+    exact (IH _ _ _ _ (plain_enum_find _ _ _ _ Hpl Hf) Hwi HLi).
 Qed.
 
 Lemma Lay_LayP_nil t v b p : Lay t v b p -> LayP Lay [] t v b p.
@@ -277,6 +326,24 @@ Proof.
   intros t v b p ts vs i ti vi Hwf Hr Hti Hvi HL. apply LayP_app.
   apply (LayP_mono_at Lay (LayP Lay [SF i]) pi t v b p _ _ Hwf Hr); [|exact HL].
   intros n. exact (Lay_LayP_SF ts vs i ti vi _ n Hti Hvi).
+Qed.
+
+(* 4'. extending the focus into the live variant of an enum                                        *)
+Lemma Lay_LayP_SV rw vars d pv vt b p : find_variant d vars = Some vt ->
+  Lay (TEnum rw vars) (VEnum d pv) b p -> LayP Lay [SV] (TEnum rw vars) (VEnum d pv) b p.
+Proof.
+  intros Hf HL. destruct p as [| | | | |st d' q]; try (cbn [Lay] in HL; contradiction).
+  apply Lay_enum in HL. destruct HL as (-> & -> & vt' & Hf' & HLq). rewrite Hf in Hf'. injection Hf' as <-.
+  cbn [LayP]. split; [reflexivity|]. split; [reflexivity|]. exists vt. split; [exact Hf|exact HLq].
+Qed.
+
+Lemma LayP_extend_SV pi : forall t v b p rw vars d pv vt, wf t v = true ->
+  resolve t v pi = Some (TEnum rw vars, VEnum d pv) -> find_variant d vars = Some vt ->
+  LayP Lay pi t v b p -> LayP Lay (pi ++ [SV]) t v b p.
+Proof.
+  intros t v b p rw vars d pv vt Hwf Hr Hf HL. apply LayP_app.
+  apply (LayP_mono_at Lay (LayP Lay [SV]) pi t v b p _ _ Hwf Hr); [|exact HL].
+  intros n. exact (Lay_LayP_SV rw vars d pv vt _ n Hf).
 Qed.
 
 (* ---------------------------------------------------------------------------------------------- *)
